@@ -1,2 +1,3 @@
 SPECIFICATION Spec
+INVARIANT Emit EmitKinds
 CHECK_DEADLOCK FALSE
